@@ -91,10 +91,10 @@ FLOORS = {
     },
     "C18": {
         "H1": 2,
-        "H3-m128": 9,
-        "H3-m32": 4,
-        "H4-fnv": 1,
-        "H5-md5": 70,
+        "H3-m128": 8,
+        "H3-m32": 3,
+        "H4-fnv": 2,
+        "H5-md5": 30,
         "H6": 3
     },
     "C19": {
